@@ -1,4 +1,165 @@
+(* C19 — property theorems about the model of omml_to_latex with fixes/C19-*.patch applied (variant `fixed`),
+   parametric in the tables T (today's tables: Gen/C19Tables.v; `wf T` is re-decided in C19/Inst.v).
+   Only statements closed by `exact`, each followed by Print Assumptions.
+   `chars out` is the LaTeX string the implementation returns; trees are arbitrary (no size bound). *)
 From S2T Require Import Lib.PyStr C19.Model C19.Proofs.
+From Coq Require Import List Bool.
+Import ListNotations.
+
+(* converting ANY tree (or None) never raises *)
+Theorem C19_total : forall (T : tables) (t : option omml), exists out, convert_opt T fixed t = Ok out.
+Proof. intros T [t|]; [exact (convert_total T t) | exact (ex_intro _ [] eq_refl)]. Qed.
+Print Assumptions C19_total.
+
+(* the result is a function of the tree alone (no state survives a call) *)
 Theorem C19_deterministic : forall T V t r1 r2, convert T V t = r1 -> convert T V t = r2 -> r1 = r2.
-Proof. intros; congruence. Qed.
+Proof. intros T V t r1 r2 H1 H2. exact (eq_trans (eq_sym H1) H2). Qed.
 Print Assumptions C19_deterministic.
+
+(* trees without literal braces in texts/attribute values give properly nested braces *)
+Theorem C19_balanced : forall T t out, wf T = true -> nobrace t = true ->
+  convert T fixed t = Ok out -> balanced (chars out) = true.
+Proof. intros T t out H1 H2 H3. exact (convert_balanced T t out H1 H2 H3). Qed.
+Print Assumptions C19_balanced.
+
+(* ---- documented LaTeX form of each structural element, operands in place, state threaded in source order.
+   Hypotheses: the element's local name, the name not being a skip tag, the slot tags of the operand nodes. *)
+Theorem C19_form_frac : forall T V q tag attrs text n d,
+  local_name tag = s "f" -> mem_str (s "f") (skip_tags T) = false ->
+  otag n = m_ns T ++ s "num" -> otag d = m_ns T ++ s "den" ->
+  process T V q (Node tag attrs text [n; d]) =
+  let (q1, a) := process T V q n in let (q2, b) := process T V q1 d in
+  (q2, lit (s "\frac{") ++ a ++ lit (s "}{") ++ b ++ lit (s "}")).
+Proof. intros T V q tag attrs text n d. exact (form_frac T V q tag attrs text n d). Qed.
+Print Assumptions C19_form_frac.
+
+Theorem C19_form_sSup : forall T V q tag attrs text e p,
+  local_name tag = s "sSup" -> mem_str (s "sSup") (skip_tags T) = false ->
+  otag e = m_ns T ++ s "e" -> otag p = m_ns T ++ s "sup" ->
+  process T V q (Node tag attrs text [e; p]) =
+  let (q1, a) := process T V q e in let (q2, b) := process T V q1 p in (q2, a ++ lit (s "^{") ++ b ++ lit (s "}")).
+Proof. intros T V q tag attrs text e p. exact (form_sSup T V q tag attrs text e p). Qed.
+Print Assumptions C19_form_sSup.
+
+Theorem C19_form_sSub : forall T V q tag attrs text e p,
+  local_name tag = s "sSub" -> mem_str (s "sSub") (skip_tags T) = false ->
+  otag e = m_ns T ++ s "e" -> otag p = m_ns T ++ s "sub" ->
+  process T V q (Node tag attrs text [e; p]) =
+  let (q1, a) := process T V q e in let (q2, b) := process T V q1 p in (q2, a ++ lit (s "_{") ++ b ++ lit (s "}")).
+Proof. intros T V q tag attrs text e p. exact (form_sSub T V q tag attrs text e p). Qed.
+Print Assumptions C19_form_sSub.
+
+Theorem C19_form_sSubSup : forall T V q tag attrs text e b p,
+  local_name tag = s "sSubSup" -> mem_str (s "sSubSup") (skip_tags T) = false ->
+  otag e = m_ns T ++ s "e" -> otag b = m_ns T ++ s "sub" -> otag p = m_ns T ++ s "sup" ->
+  process T V q (Node tag attrs text [e; b; p]) =
+  let (q1, x) := process T V q e in let (q2, y) := process T V q1 b in let (q3, z) := process T V q2 p in
+  (q3, x ++ lit (s "_{") ++ y ++ lit (s "}^{") ++ z ++ lit (s "}")).
+Proof. intros T V q tag attrs text e b p. exact (form_sSubSup T V q tag attrs text e b p). Qed.
+Print Assumptions C19_form_sSubSup.
+
+(* radical: \sqrt[deg]{e}, \sqrt{e} when the degree is blank; a radicand that is a lone opening bracket opens a
+   pending radical whose closer is pushed on the stack *)
+Theorem C19_form_rad : forall T q tag attrs text g e,
+  local_name tag = s "rad" -> mem_str (s "rad") (skip_tags T) = false ->
+  otag g = m_ns T ++ s "deg" -> otag e = m_ns T ++ s "e" ->
+  process T fixed q (Node tag attrs text [g; e]) =
+  let (q1, d0) := process T fixed q g in let (q2, c) := process T fixed q1 e in
+  let d := strip_l T d0 in
+  let key := chars (strip_l T c) in
+  if mem_str key (open_brackets T)
+  then (set_pend (closer T key :: pend q2) q2,
+        if nonempty d then lit (s "\sqrt[") ++ d ++ lit (s "]{") else lit (s "\sqrt{"))
+  else (q2, if nonempty d then lit (s "\sqrt[") ++ d ++ lit (s "]{") ++ c ++ lit (s "}")
+            else lit (s "\sqrt{") ++ c ++ lit (s "}")).
+Proof. intros T q tag attrs text g e. exact (form_rad T q tag attrs text g e). Qed.
+Print Assumptions C19_form_rad.
+
+Theorem C19_form_nary : forall T q tag attrs text pa ca ct cc o b p e,
+  local_name tag = s "nary" -> mem_str (s "nary") (skip_tags T) = false ->
+  otag b = m_ns T ++ s "sub" -> otag p = m_ns T ++ s "sup" -> otag e = m_ns T ++ s "e" ->
+  assoc (m_ns T ++ s "val") ca = Some o ->
+  process T fixed q (Node tag attrs text
+     [Node (m_ns T ++ s "naryPr") pa None [Node (m_ns T ++ s "chr") ca ct cc]; b; p; e]) =
+  let (q1, x) := process T fixed q b in let (q2, y) := process T fixed q1 p in let (q3, z) := process T fixed q2 e in
+  (q3, nary_op T o
+       ++ (if nonempty (strip_l T x) then lit (s "_{") ++ x ++ lit (s "}") else [])
+       ++ (if nonempty (strip_l T y) then lit (s "^{") ++ y ++ lit (s "}") else [])
+       ++ lit (s " ") ++ z).
+Proof. intros T q tag attrs text pa ca ct cc o b p e. exact (form_nary T q tag attrs text pa ca ct cc o b p e). Qed.
+Print Assumptions C19_form_nary.
+
+Theorem C19_form_delim : forall T q tag attrs text pa ba bt bc l ea et ec r e1 e2,
+  local_name tag = s "d" -> mem_str (s "d") (skip_tags T) = false ->
+  otag e1 = m_ns T ++ s "e" -> otag e2 = m_ns T ++ s "e" ->
+  assoc (m_ns T ++ s "val") ba = Some l -> assoc (m_ns T ++ s "val") ea = Some r ->
+  process T fixed q (Node tag attrs text
+     [Node (m_ns T ++ s "dPr") pa None [Node (m_ns T ++ s "begChr") ba bt bc; Node (m_ns T ++ s "endChr") ea et ec]; e1; e2]) =
+  let (q1, x) := process T fixed q e1 in let (q2, y) := process T fixed q1 e2 in
+  (q2, lab OAttr l ++ (x ++ lit (s ", ") ++ y) ++ lab OAttr r).
+Proof.
+  intros T q tag attrs text pa ba bt bc l ea et ec r e1 e2.
+  exact (form_delim T q tag attrs text pa ba bt bc l ea et ec r e1 e2).
+Qed.
+Print Assumptions C19_form_delim.
+
+Theorem C19_form_matrix : forall T q tag attrs text ra rt c1 c2,
+  local_name tag = s "m" -> mem_str (s "m") (skip_tags T) = false ->
+  otag c1 = m_ns T ++ s "e" -> otag c2 = m_ns T ++ s "e" ->
+  process T fixed q (Node tag attrs text [Node (m_ns T ++ s "mr") ra rt [c1; c2]]) =
+  let (q1, x) := process T fixed q c1 in let (q2, y) := process T fixed q1 c2 in
+  (q2, lit (s "\begin{matrix}") ++ (x ++ lit (s " & ") ++ y) ++ lit (s "\end{matrix}")).
+Proof. intros T q tag attrs text ra rt c1 c2. exact (form_matrix T q tag attrs text ra rt c1 c2). Qed.
+Print Assumptions C19_form_matrix.
+
+Theorem C19_form_func : forall T V q tag attrs text f e,
+  local_name tag = s "func" -> mem_str (s "func") (skip_tags T) = false ->
+  otag f = m_ns T ++ s "fName" -> otag e = m_ns T ++ s "e" ->
+  process T V q (Node tag attrs text [f; e]) =
+  let (q1, name) := process T V q f in let (q2, a) := process T V q1 e in
+  let key := strip_l T name in
+  (q2, match assoc (chars key) (func_map T) with
+       | Some v => if str_eqb v (92 :: chars key) then lit [92%N] ++ key else lit v
+       | None => name
+       end ++ lit (s "{") ++ a ++ lit (s "}")).
+Proof. intros T V q tag attrs text f e. exact (form_func T V q tag attrs text f e). Qed.
+Print Assumptions C19_form_func.
+
+Theorem C19_form_bar : forall T V q tag attrs text e,
+  local_name tag = s "bar" -> mem_str (s "bar") (skip_tags T) = false -> otag e = m_ns T ++ s "e" ->
+  process T V q (Node tag attrs text [e]) =
+  let (q1, a) := process T V q e in (q1, lit (s "\overline{") ++ a ++ lit (s "}")).
+Proof. intros T V q tag attrs text e. exact (form_bar T V q tag attrs text e). Qed.
+Print Assumptions C19_form_bar.
+
+Theorem C19_form_acc : forall T q tag attrs text pa ca ct cc a e,
+  local_name tag = s "acc" -> mem_str (s "acc") (skip_tags T) = false ->
+  otag e = m_ns T ++ s "e" -> assoc (m_ns T ++ s "val") ca = Some a ->
+  process T fixed q (Node tag attrs text [Node (m_ns T ++ s "accPr") pa None [Node (m_ns T ++ s "chr") ca ct cc]; e]) =
+  let (q1, x) := process T fixed q e in
+  (q1, lab OAttr (match assoc a (accent_map T) with Some v => v | None => hat end)
+       ++ lit (s "{") ++ x ++ lit (s "}")).
+Proof. intros T q tag attrs text pa ca ct cc a e. exact (form_acc T q tag attrs text pa ca ct cc a e). Qed.
+Print Assumptions C19_form_acc.
+
+(* an n-ary operator / delimiter / accent WITHOUT an own property child uses the default character, whatever
+   operators occur inside its operands (ANY children list cs) *)
+Theorem C19_own_operator : forall T q tag attrs text cs,
+  (local_name tag = s "nary" -> mem_str (s "nary") (skip_tags T) = false ->
+   forallb (fun c => negb (str_eqb (otag c) (m_ns T ++ s "naryPr"))) cs = true ->
+   exists rest, snd (process T fixed q (Node tag attrs text cs)) = nary_op T sum_char ++ rest)
+  /\ (local_name tag = s "d" -> mem_str (s "d") (skip_tags T) = false ->
+      forallb (fun c => negb (str_eqb (otag c) (m_ns T ++ s "dPr"))) cs = true ->
+      exists parts, snd (process T fixed q (Node tag attrs text cs)) =
+                    lab OAttr (s "(") ++ join (lit (s ", ")) parts ++ lab OAttr (s ")"))
+  /\ (local_name tag = s "acc" -> mem_str (s "acc") (skip_tags T) = false ->
+      mem_str (s "m") (skip_tags T) = false ->
+      forallb (fun c => negb (str_eqb (otag c) (m_ns T ++ s "accPr"))) cs = true ->
+      exists a, snd (process T fixed q (Node tag attrs text cs)) =
+                lab OAttr (match assoc (s "^") (accent_map T) with Some v => v | None => hat end)
+                ++ lit (s "{") ++ a ++ lit (s "}")).
+Proof.
+  intros T q tag attrs text cs.
+  exact (conj (own_nary T q tag attrs text cs) (conj (own_delim T q tag attrs text cs) (own_acc T q tag attrs text cs))).
+Qed.
+Print Assumptions C19_own_operator.
